@@ -87,11 +87,48 @@ def check_membership(ctx, cfg, fmt, x, y, base, tag):
   return k
 
 
+def run_tensor_alpha(cfg, ctx):
+  """quantized_linear with a constant per-channel scale: every column is the scalar-scale format of its own alpha."""
+  from vf import qenv
+  cls, kw, alphas = cfg["cls"], cfg["kw"], cfg["tensor_alpha"]
+  fmts = [fixed.make({"cls": cls, "kw": dict(kw, alpha=a)}) for a in alphas]
+  base = {"cls": cls, "variant": variant(cfg, fmts[0]), "alpha": "tensor"}
+  ok, q = ctx.call(base, qenv.build, {"cls": cls, "kw": dict(kw, alpha=np.array([alphas], dtype=np.float32))})
+  if not ok:
+    return
+  rng = np.random.default_rng(cfg["seed"] * 7919 + cfg["idx"])
+  cols = [fixed.probes(f, rng=rng, max_codes=512) for f in fmts]
+  n = min(len(c) for c in cols)
+  x = np.stack([c[np.linspace(0, len(c) - 1, n).astype(int)] for c in cols], axis=1).astype(np.float32)
+  ok, y = ctx.call(base, qenv.call, q, x)
+  if not ok:
+    return
+  ctx.count("events." + cls)
+  ctx.count("tensor_alpha_cases")
+  okm, mn = ctx.call(dict(base, op="min"), lambda: qenv.as_np(q.min()))
+  okM, mx = ctx.call(dict(base, op="max"), lambda: qenv.as_np(q.max()))
+  for c, f in enumerate(fmts):
+    check_membership(ctx, cfg, f, x[:, c], y[:, c], base, "tensor alpha, column %d (alpha %g)" % (c, alphas[c]))
+    if okm and okM:
+      ctx.count("minmax_checked")
+      mnc = np.broadcast_to(np.asarray(mn, dtype=np.float64), (1, len(alphas)))[0, c] if np.size(mn) in (1, len(alphas)) else float(np.min(mn))
+      mxc = np.broadcast_to(np.asarray(mx, dtype=np.float64), (1, len(alphas)))[0, c] if np.size(mx) in (1, len(alphas)) else float(np.max(mx))
+      if float(y[:, c].min()) < mnc - 1e-7 * abs(mnc):
+        ctx.violation(dict(base, kind="min_not_enclosing"),
+                      "column with alpha %g: min() gives %g but output %g observed" % (alphas[c], mnc, float(y[:, c].min())), None)
+      if float(y[:, c].max()) > mxc + 1e-7 * abs(mxc):
+        ctx.violation(dict(base, kind="max_not_enclosing"),
+                      "column with alpha %g: max() gives %g but output %g observed" % (alphas[c], mxc, float(y[:, c].max())), None)
+  ctx.nontrivial_many((cls, "tensor_alpha", sorted(kw.items(), key=str)), x.ravel())
+
+
 def run_case(cfg, ctx):
   if isinstance(cfg, dict) and cfg.get("part") == "live":
     from vf import live
     return live.run(cfg, ctx)
   from vf import qenv
+  if cfg.get("tensor_alpha"):
+    return run_tensor_alpha(cfg, ctx)
   fmt = fixed.make(cfg)
   cls = cfg["cls"]
   base = {"cls": cls, "variant": variant(cfg, fmt),
